@@ -253,8 +253,10 @@ impl CurveHandshake {
     let mut server_ephemeral_pk_bytes = vec![0u8; 32];
     let mut nonce = Nonce::new_byte_array();
     nonce.as_mut_slice()[..8].copy_from_slice(Self::COOKIE_NONCE_PREFIX);
-    if cookie.len() < 16 {
-      return Err(ZmqError::ProtocolViolation("WELCOME Cookie too short".into()));
+    // The cookie is a 16-byte MAC followed by the boxed 32-byte ephemeral key; the output
+    // buffer below is sized for exactly that.
+    if cookie.len() != 16 + 32 {
+      return Err(ZmqError::ProtocolViolation("WELCOME Cookie has the wrong length".into()));
     }
     let mac = Mac::try_from(&cookie[..16])?;
     let cookie_ciphertext = &cookie[16..];
